@@ -429,7 +429,10 @@ String File::getStem(const String& file, const String& extension)
   const char* result;
   for(; pos >= start; --pos)
     if(*pos == '.')
-      dot = pos;
+    {
+      if(!dot)
+        dot = pos;
+    }
     else if(*pos == '\\' || *pos == '/')
     {
       result = pos + 1;
